@@ -133,6 +133,10 @@ def make_case(seed, i, tier='quick'):
                                                         ['lit', -9.0]]]}
         desc['formula_cells'] = list(desc.get('formula_cells', [])) + [
             [0, 0, 11, r] for r in (13, 14, 15, 16)]
+        # an explicit blank cell (exported as #EMPTY by every object alike)
+        desc['extra_dict'] = {gw.key_of(desc, 0, 0, 12, 17): '#EMPTY',
+                              gw.key_of(desc, 0, 0, 12, 18): '#EMPTY'}
+        c0['K18'] = {'f': ['call', 'COUNTBLANK', [['rng', 0, 0, 12, 17, 12, 18]]]}
     forms = wbrun.formula_cells(desc)
     if not forms:
         return None
